@@ -4,7 +4,7 @@ from fractions import Fraction
 
 from .. import alg
 from ..alg import Poly, P, B, C, sym, lt, mk_fn
-from ..interp import Interp, Hooks, Arr, Obj, Unk, symarr, scalar, num, _Interp1d
+from ..interp import Interp, Hooks, Arr, Obj, Unk, symarr, scalar, num, _Interp1d, decide_with, count_atom
 from ..fitmodel import loc, compare
 from ..astutil import up, walk_local, stores, chain, calls, kw
 from ..rules import where
@@ -35,13 +35,19 @@ class H(Hooks):
         self.i1d = []
 
     def decide(self, interp, test, env, mod):
-        t = up(test).replace(' ', '')
-        if t.startswith('np.any(') and '>' in t and 'max()' in t:
-            return True       # clamp branch (a no-op when nothing exceeds the maximum)
-        if t == 'self.n_ap>1':
-            return not self.single
-        if t == 'self.n_ap==1':
-            return self.single
+        try:
+            v = interp.expr(test, dict(env), mod)
+        except Exception:
+            return None
+        if isinstance(v, Arr) and v.ndim == 0 and not v.poly.is_const():
+            syms, fns = alg.leaf_syms(v.poly)
+            if not syms and fns <= {'len'}:
+                # number of tabulated apertures: one / several, by configuration
+                return decide_with(interp, test, env, mod, consts={count_atom(A): 1 if self.single else 10 ** 6})
+            # "if any request exceeds the table maximum": take the clamp branch (a no-op when nothing exceeds it)
+            anys = alg.contains_atom(v.poly, lambda a: a[0] == 'fn' and a[1] == 'any')
+            if anys and v.poly.is_monomial() and 'max' in fns and 'min' not in fns and not (fns - {'any', 'max'} - {'value', 'unit'}):
+                return True
         return None
 
     def opaque(self, interp, fi, args, kwargs, node):
@@ -105,8 +111,9 @@ def run(ctx):
                    'non-default options %s change the interpolant or silence out-of-range requests' % sorted(kwargs), 'interp1d-options')
     # single aperture: repeat with rows = models
     rep = [c for c in calls(fi.node) if up(c.func).endswith('.reshape') and 'np.repeat' in up(c)]
-    ok = len(rep) >= 2 and all(up(c.args[0]) == 'c.n_models' and 'len(c.apertures)' in up(c.args[1]) for c in rep if len(c.args) == 2) \
-        and any('self.flux' in up(c) for c in rep) and any('self.error' in up(c) for c in rep)
+    import re as _re
+    ok = len(rep) >= 2 and all(_re.match(r'^\w+\.n_models$', up(c.args[0])) and _re.match(r'^len\(\w+(\.apertures)?\)$', up(c.args[1])) for c in rep if len(c.args) == 2) \
+        and any('%s.flux' % fi.params[0] in up(c) for c in rep) and any('%s.error' % fi.params[0] in up(c) for c in rep)
     ctx.expect(ok, 'CFG-7', 'ConvolvedFluxes.interpolate single-aperture repeat', where_, 'np.repeat(table, n).reshape(n_models, n) for flux and error',
                'single-aperture branch: %s' % [up(c)[:80] for c in rep], 'repeat-shape')
 
